@@ -160,3 +160,36 @@ PROPS["C07"] = dict(
     level_text="seeded loss/duplication/delay of payload frames, confirmations and commands against real DataServers and real shm servers, plus single-drop and single-duplicate enumeration of every acknowledged frame of recorded base runs; oracle at quiescence against a single-copy store per host (stored once, byte- and deser-identical, announced once per transmit idx, fetch delivers once, purge wins over late payloads) and continuously (no unlink while a data-server thread maps the segment)",
     level_note=_LN,
 )
+
+REAL_SHM = ["cascade.shm.server.LocalServer (start loop)", "cascade.shm.dataset.Manager", "cascade.shm.disk.Disk (its two 4-thread pools)", "cascade.shm.algorithms.lottery",
+            "cascade.shm.client (allocate/get/purge/close/get_free_space with its own wait loop)", "cascade.shm.api (wire format)"]
+STUB_SHM = ["UDP loopback sockets", "multiprocessing.shared_memory.SharedMemory (named segment namespace, POSIX unlink semantics, injectable ENOMEM)",
+            "ThreadPoolExecutor (jobs are kernel threads, pre-empted at source lines of dataset.py / disk.py)", "threading.Lock in dataset.py", "builtin open / tempfile in disk.py (in-memory files with injectable EIO/ENOSPC/missing)",
+            "uuid4 (reader ids)", "clock", "findmnt"]
+_SHM_GROUPS = [
+    dict(name="small", harness="shmstore", weight=3, runs=dict(quick=1500, thorough=40000), opts=dict()),
+    dict(name="stale", harness="shmstore", weight=2, runs=dict(quick=800, thorough=20000), opts=dict(stale=True)),
+    dict(name="big", harness="shmstore", weight=2, runs=dict(quick=600, thorough=15000), opts=dict(big=True)),
+    dict(name="faults", harness="shmstore", weight=3, runs=dict(quick=1200, thorough=30000), opts=dict(faults=True, stale=True)),
+]
+PROPS["C08"] = dict(
+    level="exploration", budget=dict(quick=90, thorough=900), groups=_SHM_GROUPS,
+    rule="run = (capacity, 1-4 clients, <=6 keys, 3-16 operations per client from write/read(+hold)/purge/free-space query/sleep/leak, sizes from 1 to above capacity, optional disk or allocation faults, schedule incl. line-level pre-emption of disk jobs); "
+         "distinct = distinct event-log digest; non-trivial = at least one page-out completed",
+    real=REAL_SHM, stub=STUB_SHM,
+    assumptions=["pre-emption granularity inside the store: seam calls plus source lines of dataset.py/disk.py for pool threads; a single source line is atomic (CPython GIL)",
+                 "capacities stay below 2^32 (the 4-byte FreeSpaceResponse field is C17's subject)",
+                 "the model of 'resident' is built from observable events only: grant, page-in submission, segment unlink"],
+    level_text="seeded exploration of request histories and completion orders of asynchronous page-out / page-in jobs (successful and failed); oracle after every seam step: sum of existing segments <= capacity; after every server step: reported free <= capacity - resident (equality when no disk job is in flight), read both from Manager.free_space and over the UDP protocol; admission: oversize refused, nothing granted beyond the model's free space",
+    level_note=_LN,
+)
+PROPS["C09"] = dict(
+    level="fault_enumeration", budget=dict(quick=90, thorough=900), groups=_SHM_GROUPS,
+    rule="same runs as C08; non-trivial = at least one page-in completed or a purge was delayed by an open reader",
+    real=REAL_SHM, stub=STUB_SHM,
+    assumptions=["a reader is open from the moment the server sends the granting GetResponse until the server receives that reader's CloseCallback",
+                 "after an injected I/O error the affected key may disappear or a get may fail; it may never show other bytes",
+                 "bounded liveness: after the workload every handle is closed, faults stop, the clock advances past the staleness windows and the real client's own 60 s wait loop must obtain capacity minus what a fault made unevictable"],
+    level_text="seeded histories with disk faults (EIO/ENOSPC on page-out, missing file / read error on page-in, ENOMEM on segment create), clients dying with handles open and clock advances past the staleness windows; reference model key -> bytes of completed writes, open readers; oracles: bytes equal, not readable before writer close, no page-out / unlink under a fresh reader, delayed purge applied at last close, client API raises only documented errors, bounded liveness probe in a drain phase",
+    level_note=_LN,
+)
